@@ -40,7 +40,9 @@ JudgeCrc(e) ==
       plain == Enc(e.target, e.value)
       encOK == e.frame = plain \o CrcLE(alg, plain, s)
       T == TLCEval([i \in 1..Len(e.cases) |-> CrcOutcome(alg, s, e.target, e.cases[i][2], e.cases[i][4] = 1)])
-      badIdx == {i \in 1..Len(e.cases) : e.cases[i][3] # T[i]}
+      \* the statement requires acceptance with the right value/remainder, or rejection (it names no error kind)
+      Agree(obs, exp) == IF exp[1] = 1 THEN obs = exp ELSE obs[1] = 0 /\ obs[2] # "panic"
+      badIdx == {i \in 1..Len(e.cases) : ~Agree(e.cases[i][3], T[i])}
       first == IF badIdx = {} THEN 0 ELSE CHOOSE i \in badIdx : \A k \in badIdx : i <= k
       b == Bad(<< <<modelOK, "crcmodel">>, <<encOK, "crcenc">>, <<badIdx = {}, "crcde">> >>)
   IN [ok |-> b = <<>>, exp |-> [bad |-> b, want |-> [first_bad_case |-> first, expected |-> IF first = 0 THEN <<>> ELSE T[first],
